@@ -12,6 +12,8 @@ EXPLANATION = (
     "re-establishes the state a new event consumes.")
 NOT_DECIDED = "that a starved event completes with exact balance (liveness + numerics)"
 
+TECHNIQUE = ('CFG rules for the failure arm (nothing but a zero step limit reachable), allocator success-edge dominance, throwing capacity validation dominating the writes, must-pass reset')
+
 UNITS = [
     "src/celeritas/em/model/KleinNishinaModel.cc",
     "src/celeritas/em/model/LivermorePEModel.cc",
